@@ -241,10 +241,10 @@ Proof. vm_compute. reflexivity. Qed.
 (* ellipsis, right aligned, a combining character and a wide character straddling the cut *)
 Example ellipsis_line :
   layout cw_ex [97; 769; 19990; 19990; 98] 4 AlRight WEllipsis [8230]
-  = Ok [[SText 1 0 2; SIns 1 2 [8230]; SPad 1 2]] \/
-  layout cw_ex [97; 769; 19990; 19990; 98] 4 AlRight WEllipsis [8230]
-  = Ok [[SText 3 0 3; SIns 1 3 [8230]; SPad 0 3]].
-Proof. right. vm_compute. reflexivity. Qed.
+  = Ok [[SText 3 0 3; SIns 1 3 [8230]; SPad 0 3]]
+  /\ layout cw_ex [97; 19990; 19990; 98] 3 AlRight WEllipsis [8230]
+  = Ok [[SText 1 0 1; SIns 1 1 [8230]; SPad 1 1]].
+Proof. split; vm_compute; reflexivity. Qed.
 
 (* clip, centered: the negative shift, and the row that trim_line cuts on both sides *)
 Example clip_center_render :
